@@ -7,6 +7,9 @@ pub mod stats;
 pub mod clock;
 pub mod store;
 
+#[cfg(feature = "verif")]
+pub mod verif;
+
 #[cfg(feature = "bench_testable")]
 pub mod proxy;
 #[cfg(feature = "bench_testable")]
